@@ -19,11 +19,11 @@ MODULE = "IntraProxy"
 # (cfg, timeout, expect_ok): the repaired design must hold; the pinned design (the tree as it was found) is expected to fail --
 # its counterexamples are the ones the replay reproduces on the real code (known findings below)
 PROFILES = {
-    "quick": dict(design=[("ip_fixed_q.cfg", 400, True), ("ip_pinned_q.cfg", 400, False)],
+    "quick": dict(design=[("ip_fixed_q.cfg", 400, True), ("ip_fixed_ack.cfg", 400, True), ("ip_ackdrop.cfg", 400, False), ("ip_pinned_q.cfg", 400, False)],
                   gen=[("sim_2w.cfg", ["a", "b"], 120, 260), ("sim_2c.cfg", ["a", "b"], 60, 260), ("sim_3w.cfg", ["a", "b", "c"], 40, 260)],
                   limit=150),
     "thorough": dict(design=[("ip_fixed_q.cfg", 400, True), ("ip_fixed_msg.cfg", 900, True), ("ip_fixed_t.cfg", 900, True),
-                             ("ip_fixed_live.cfg", 900, True), ("ip_fixed_3.cfg", 900, True), ("ip_pinned_q.cfg", 400, False)],
+                             ("ip_fixed_live.cfg", 900, True), ("ip_fixed_3.cfg", 900, True), ("ip_fixed_ack.cfg", 400, True), ("ip_ackdrop.cfg", 400, False), ("ip_pinned_q.cfg", 400, False)],
                      gen=[("sim_2w.cfg", ["a", "b"], 1500, 260), ("sim_2c.cfg", ["a", "b"], 600, 260), ("sim_3w.cfg", ["a", "b", "c"], 900, 260)],
                      limit=2400),
 }
@@ -62,6 +62,9 @@ def _constructed():
                                                                 {"a": "Unstall", "i": "b", "sh": 21}, RA("a", 11, 21)]},
         {"id": "c-backpressure-both", "inst": ab, "cmds": up + [{"a": "Stall", "i": "a", "sh": 11}, RM("b", 11, 21), RA("b", 21, 11), RM("b", 11, 21), RA("b", 21, 11), RM("b", 11, 21),
                                                                  {"a": "Unstall", "i": "a", "sh": 11}, {"a": "Stall", "i": "a", "sh": 11}, RM("b", 11, 21), RM("b", 11, 21)]},
+        # an ack forwarded over an open stream to an owner that has lost its local ack channel meanwhile (stale ownership at the forwarder)
+        {"id": "c-ack-no-channel", "inst": ab, "cmds": up + [R("b", 21), RA("a", 11, 21), RA("a", 11, 21), Rec("a"), Rec("b")]},
+        {"id": "c-ack-no-channel-readd", "inst": ab, "cmds": up + [RA("a", 11, 21), R("b", 21), RA("a", 11, 21), A("b", 21), Rec("a"), RA("a", 11, 21)]},
         {"id": "c-two-pairs", "inst": ab, "cmds": [A("a", 11), A("a", 12), A("b", 21), V("a", "b", [21]), V("b", "a", [11, 12]), Rec("a"), Rec("b"), RM("b", 11, 21), RM("b", 12, 21),
                                                    RA("a", 12, 21), R("a", 12), Rec("a"), RM("b", 11, 21)]},
     ]
@@ -182,6 +185,10 @@ def run_extra(c):
                 raise Broken("the repaired IntraProxy design violates %s in %s" % (r.violated, cfg))
             if not r.ok:
                 raise Broken("TLC did not complete on IntraProxy/%s: %s" % (cfg, r.error_text[-600:]))
+        elif cfg == "ip_ackdrop.cfg":
+            # vacuity guard: the variant that drops an ack silently at an owner without a local ack channel must break NoSilentLoss
+            if "NoSilentLoss" not in r.violated:
+                raise Broken("vacuity guard: IntraProxy/ip_ackdrop.cfg (AckDropSilently) does not violate NoSilentLoss: %s" % r.violated)
         else:
             if r.violated:
                 c.notes.append("IntraProxy design-level counterexample (pinned model, %s): %s" % (cfg, r.violated))
